@@ -186,6 +186,11 @@ def run_check(prop, tier, seed=None, replay=None):
     violations = []   # (replay path, suffix)
     unproved = []     # descriptions of broken obligations / ties
 
+    # the Lean project and its Generated/ files are shared by every run (also by runs against a scratch copy of the
+    # repository): steps 1-2 happen under one global lock, and the drivers built there are copied for this run
+    from .common import flock as _flock
+    _phase = _flock("leanphase")
+    _phase.__enter__()
     # 1. T1: regenerate the definitions taken from the source
     gen = extract.generate(prop.gen_engines)
     for e, err in gen.items():
@@ -216,6 +221,9 @@ def run_check(prop, tier, seed=None, replay=None):
     if not okd:
         ctx.model_ok = False
         unproved.append("the model driver does not build:\n" + leanside.first_errors(textd))
+    else:
+        leanside.snapshot_drivers(prop.drivers)
+    _phase.__exit__(None, None, None)
 
     proof = {
         "obligations": len(thms), "discharged": max(discharged, 0), "theorems": thms, "axioms": axioms,
@@ -258,6 +266,7 @@ def run_check(prop, tier, seed=None, replay=None):
         path = write_replay(prop.id, "unproved", "\n".join(body) + "\n")
         violations.append((path, " no-failing-input-found"))
 
+    leanside.drop_drivers()
     wall = t.s()
     write_evidence(prop, ctx, proof, wall, len(violations))
     for l in out_lines:
